@@ -85,7 +85,53 @@ func shIn(s int) uint32 {
 
 // ------------------------------------------------------------------ concretisation of validator ids
 
+// key-shape classes: how the public keys of one world (one chain / one replayed call) look
+const (
+	shapeRand32   = iota // random 32-byte keys
+	shapeBLS96           // random 96-byte keys (BLS keys of the main net)
+	shapeMixedLen        // random keys of different lengths (1..64 bytes)
+	shapeNested          // families of keys that are prefixes / extensions of one another (X, X|aa, X|aa|aa)
+	shapeDecimal         // common prefix + decimal index ("val-1", "val-10", "val-11": different lengths, shared prefixes)
+	shapeLastByte        // equal length, keys differ only in the last byte(s)
+	numShapes
+)
+
+var shapeNames = []string{"rand32", "bls96", "mixedlen", "nested", "decimal", "lastbyte"}
+
+// genKey builds key number i of a world with the given shape (distinct i => distinct keys)
+func genKey(rng *rand.Rand, shape int, base []byte, i int) []byte {
+	switch shape {
+	case shapeBLS96:
+		k := make([]byte, 96)
+		rng.Read(k)
+		binary.BigEndian.PutUint32(k[92:], uint32(i)) // distinctness
+		return k
+	case shapeMixedLen:
+		k := make([]byte, 1+rng.Intn(64))
+		rng.Read(k)
+		return append(k, byte(i>>16), byte(i>>8), byte(i)) // distinctness, length 4..67
+	case shapeNested:
+		fam, depth := i/3, i%3
+		k := append(append([]byte(nil), base[:6]...), byte(fam>>8), byte(fam))
+		for d := 0; d < depth; d++ {
+			k = append(k, 0xaa)
+		}
+		return k
+	case shapeDecimal:
+		return []byte(fmt.Sprintf("val-%x-%d", base[:2], i))
+	case shapeLastByte:
+		k := append([]byte(nil), base[:30]...)
+		return append(k, byte(i>>8), byte(i))
+	}
+	k := make([]byte, 32)
+	rng.Read(k)
+	return k
+}
+
 type world struct {
+	shape  int
+	base   []byte
+	nkeys  int
 	rng    *rand.Rand
 	keys   map[int][]byte // id -> public key
 	byKey  map[string]int // key|chances|index -> id
@@ -93,8 +139,15 @@ type world struct {
 	rnd    []byte // randomness of the current call
 }
 
-func newWorld(rng *rand.Rand) *world {
-	return &world{rng: rng, keys: map[int][]byte{}, byKey: map[string]int{}, nextID: 100000}
+func newWorld(rng *rand.Rand, shape int) *world {
+	base := make([]byte, 32)
+	rng.Read(base)
+	return &world{rng: rng, shape: shape, base: base, keys: map[int][]byte{}, byKey: map[string]int{}, nextID: 100000}
+}
+
+func (w *world) freshKey() []byte {
+	w.nkeys++
+	return genKey(w.rng, w.shape, w.base, w.nkeys)
 }
 
 func chancesOf(id int) uint32 { return uint32(1 + id%5) }
@@ -116,8 +169,7 @@ func (w *world) key(id int) []byte {
 	if k, ok := w.keys[id]; ok {
 		return k
 	}
-	k := make([]byte, 32)
-	w.rng.Read(k)
+	k := w.freshKey()
 	w.setKey(id, k)
 	return k
 }
@@ -152,8 +204,7 @@ func hashOrderKey(pk, rnd []byte) string {
 func (w *world) realiseRank(rank []int, rnd []byte) {
 	keys := make([][]byte, len(rank))
 	for i := range keys {
-		keys[i] = make([]byte, 32)
-		w.rng.Read(keys[i])
+		keys[i] = w.freshKey()
 	}
 	sort.Slice(keys, func(i, j int) bool { return hashOrderKey(keys[i], rnd) < hashOrderKey(keys[j], rnd) })
 	for i, id := range rank {
@@ -260,7 +311,9 @@ func (w *world) idsOf(l []sharding.Validator) []int {
 	return r
 }
 
-const repeats = 8
+// runs per call: 0..7 rebuild the inputs (maps, slices, validator objects, fresh / chain-shared shuffler);
+// 8 = a shuffler that previously served a call for a LATER epoch, 9 = one that served EARLIER epochs
+const repeats = 10
 
 type runner struct {
 	w        *world
@@ -272,6 +325,7 @@ type runner struct {
 	calls    int
 	errs     int
 	distinct *vtrace.Distinct
+	shapes   map[string]int
 }
 
 func permOf(rng *rand.Rand, n int, variant int) []int {
@@ -308,7 +362,7 @@ func (r *runner) exec(c *callIn) *callOut {
 	vcache := map[int]sharding.Validator{}
 	for v := 0; v < repeats; v++ {
 		sh := r.shared
-		if v%2 == 1 {
+		if v%2 == 1 || v >= 8 {
 			p := r.params
 			p.cfgOrder = permOf(w.rng, len(c.Swap), 2)
 			sh = newShuffler(c, p)
@@ -318,20 +372,42 @@ func (r *runner) exec(c *callIn) *callOut {
 			vc = vcache // same validator objects
 		}
 		junk := 0
-		if v >= 5 {
+		if v >= 5 && v < 8 {
 			junk = 9 + 8*v
 		}
 		extra := v == 3 || v == 6
-		args := sharding.ArgsUpdateNodes{
-			Eligible:          w.buildMap(c.Elig, permOf(w.rng, len(c.Elig), v), junk, vc, extra),
-			Waiting:           w.buildMap(c.Wait, permOf(w.rng, len(c.Wait), v+1), junk, vc, extra),
-			NewNodes:          w.buildList(c.New, vc, extra),
-			UnStakeLeaving:    w.buildList(c.Unstake, vc, extra),
-			AdditionalLeaving: w.buildList(c.Addl, vc, extra),
-			Rand:              append([]byte(nil), w.rnd...),
-			NbShards:          uint32(c.Nb),
-			Epoch:             uint32(c.Epoch),
+		mkArgs := func(epoch int) sharding.ArgsUpdateNodes {
+			return sharding.ArgsUpdateNodes{
+				Eligible:          w.buildMap(c.Elig, permOf(w.rng, len(c.Elig), v), junk, vc, extra),
+				Waiting:           w.buildMap(c.Wait, permOf(w.rng, len(c.Wait), v+1), junk, vc, extra),
+				NewNodes:          w.buildList(c.New, vc, extra),
+				UnStakeLeaving:    w.buildList(c.Unstake, vc, extra),
+				AdditionalLeaving: w.buildList(c.Addl, vc, extra),
+				Rand:              append([]byte(nil), w.rnd...),
+				NbShards:          uint32(c.Nb),
+				Epoch:             uint32(epoch),
+			}
 		}
+		if v >= 8 {
+			// equal inputs => equal outputs whatever the instance computed before: warm the instance up with calls for
+			// other epochs (results ignored; they may fail), then make the call under test
+			late := c.Epoch
+			for _, x := range append([]int{c.FixEpoch, c.BalEpoch}, swapEpochs(c)...) {
+				if x > late && x < 1<<20 {
+					late = x
+				}
+			}
+			if v == 8 {
+				_, _ = sh.UpdateNodeLists(mkArgs(late + 2))
+				_, _ = sh.UpdateNodeLists(mkArgs(c.Epoch + 1))
+			} else {
+				_, _ = sh.UpdateNodeLists(mkArgs(0))
+				if c.Epoch > 0 {
+					_, _ = sh.UpdateNodeLists(mkArgs(c.Epoch - 1))
+				}
+			}
+		}
+		args := mkArgs(c.Epoch)
 		res, err := sh.UpdateNodeLists(args)
 		out := &callOut{Err: err != nil, Elig: []wireList{}, Wait: []wireList{}, Leaving: []int{}, Rem: []int{}}
 		if err == nil {
@@ -359,8 +435,8 @@ func (r *runner) exec(c *callIn) *callOut {
 					what = "stillRemaining"
 				}
 				vtrace.Violation("C13", "C13/nondeterministic/"+what,
-					fmt.Sprintf("UpdateNodeLists gave different %s lists for equal inputs (run 0 vs run %d: maps rebuilt in another "+
-						"insertion order / fresh slices): run0=%s run%d=%s input=%s", what, v, firstJSON, v, string(b), mustJSON(c)),
+					fmt.Sprintf("UpdateNodeLists gave different %s lists for equal inputs (run 0 vs run %d: runs 1-7 rebuild the maps in another "+
+						"insertion order / fresh slices, run 8 / 9 use a shuffler that served later / earlier epochs before): run0=%s run%d=%s input=%s", what, v, firstJSON, v, string(b), mustJSON(c)),
 					M{"in": c, "run0": first, "runN": out, "variant": v})
 			}
 		}
@@ -371,6 +447,14 @@ func (r *runner) exec(c *callIn) *callOut {
 		r.errs++
 	}
 	return first
+}
+
+func swapEpochs(c *callIn) []int {
+	r := make([]int, 0, len(c.Swap))
+	for _, s := range c.Swap {
+		r = append(r, s.Ep)
+	}
+	return r
 }
 
 func eqJSON(a, b interface{}) bool {
@@ -445,7 +529,8 @@ func (r *runner) classKey(c *callIn, o *callOut) string {
 	for _, l := range c.Wait {
 		nw += len(l.L)
 	}
-	return fmt.Sprintf("%d/%d/%d/%v/%v/%v/%d/%d/%d/%d/%d/%d/%v/%d/%d", c.Nb, c.MinS, c.MinM, c.Cross, c.Epoch >= c.FixEpoch,
+	r.shapes[shapeNames[r.w.shape]]++
+	return fmt.Sprintf("%s/%d/%d/%d/%v/%v/%v/%d/%d/%d/%d/%d/%d/%v/%d/%d", shapeNames[r.w.shape], c.Nb, c.MinS, c.MinM, c.Cross, c.Epoch >= c.FixEpoch,
 		c.Epoch >= c.BalEpoch, len(c.Swap), ne, nw, len(c.New), len(c.Unstake), len(c.Addl), o.Err, len(o.Leaving), len(o.Rem))
 }
 
@@ -474,7 +559,7 @@ func replay(path string, r *runner, tw *vtrace.Writer) {
 			return
 		}
 		// a fresh world per call: ids are re-keyed so that the hash order realises the requested rank
-		w := newWorld(r.w.rng)
+		w := newWorld(r.w.rng, li%numShapes)
 		w.rnd = make([]byte, 32)
 		w.rng.Read(w.rnd)
 		w.realiseRank(c.Rank, w.rnd)
@@ -504,7 +589,7 @@ func record(seed int64, chains int, r *runner, tw *vtrace.Writer) {
 	rng := rand.New(rand.NewSource(seed))
 	ncalls, nbig := 0, 0
 	for t := 0; t < chains; t++ {
-		w := newWorld(rng)
+		w := newWorld(rng, t%numShapes)
 		r.w = w
 		r.shared = nil
 		r.params = shufflerParams{hysteresis: []float32{0, 0.2, 0.5}[rng.Intn(3)], adaptivity: rng.Intn(4) == 0}
@@ -661,7 +746,8 @@ func main() {
 		return
 	}
 	rng := rand.New(rand.NewSource(seed*7919 + 13))
-	r := &runner{w: newWorld(rng), outIDs: vtrace.NewInterner(), distinct: vtrace.NewDistinct()}
+	r := &runner{w: newWorld(rng, shapeRand32), outIDs: vtrace.NewInterner(), distinct: vtrace.NewDistinct(),
+		shapes: map[string]int{}}
 	if os.Args[2] != "-" {
 		replay(os.Args[2], r, tw)
 	}
@@ -675,4 +761,5 @@ func main() {
 	vtrace.Stat("error_calls", r.errs)
 	vtrace.Stat("nondeterministic_calls", r.nondet)
 	vtrace.Stat("distinct_classes", r.distinct.Len())
+	vtrace.Stat("calls_per_key_shape", r.shapes)
 }
